@@ -214,6 +214,31 @@ def run_case(case, work, rec):
             rec.ok((digest, "iter-int", lv), False)
         else:
             rec.violation(f".iter(int) did not return the stored box: [{f1}][{lv}].iter({b0})")
+    # a level limit together with a negative level number: -1 is the finest level the reader exposes (or refused)
+    if m.nlevels >= 2:
+        for L in range(m.nlevels - 1):
+            pools.CTL.reset(mode="inproc", seed=3)
+            try:
+                pckL = PlotfileCooker(path, limit_level=L)
+            except Exception as e:
+                rec.violation(f"iteration raised {type(e).__name__}: opening with limit_level={L}", key=(digest, "open-limit", L))
+                continue
+            for neg in range(-1, -(L + 2), -1):
+                lv = L + 1 + neg
+                key = (digest, "neg-lv", L, neg)
+                try:
+                    got = list(pckL[f1][neg])
+                except Exception:
+                    rec.count("negative_levels_refused")
+                    rec.ok(key, False)
+                    continue
+                rec.count("iterations"); rec.count("negative_levels_under_a_limit")
+                if multiset(got) != multiset([m.data[lv][bi][..., f1] for bi in range(len(m.boxes[lv]))]):
+                    rec.violation(f"yielded boxes are not the stored boxes (as a multiset of bit patterns): [{f1}][{neg}] with "
+                                  f"limit_level={L} is level {lv} ({m.nlevels} levels in the Header)", key=key,
+                                  witness={"limit_level": L, "level": neg, "yielded": len(got), "level_has": len(m.boxes[lv])})
+                else:
+                    rec.ok(key, True)
     for k, v in contracts.COUNTS.items():
         rec.count("calls:" + k, v - n0.get(k, 0))
     # contracts hang on internal functions: a failure is a verdict only when the case also failed
